@@ -26,14 +26,21 @@ def make_project(rng, k, with_include=True):
         g = gen.Gen(rng, shadow=True, max_stmts=4)
         t1, n1, i1, o1 = g.template("LibT")
         f1, fn1 = g.function("libf")
-        files["lib/inc.circom"] = "pragma circom 2.0.0;\n" + gen.render(f1) + gen.render(t1)
+        # the included-only file sometimes has no version pragma or one the tool does not support: reports about that file only
+        pragma = rng.choice(["pragma circom 2.0.0;\n", "pragma circom 2.0.0;\n", "", "pragma circom 2.9.9;\n"])
+        files["lib/inc.circom"] = pragma + gen.render(f1) + gen.render(t1)
         main = main.replace("pragma circom 2.0.0 ;\n", "pragma circom 2.0.0 ;\ninclude \"lib/inc.circom\";\n", 1)
     if rng.chance(1, 3):
         g = gen.Gen(rng, shadow=True, max_stmts=4)
         t2, n2, i2, o2 = g.template("Second")
-        files["second.circom"] = "pragma circom 2.0.0;\n" + gen.render(t2)
-        inputs.append("second.circom")
-        if rng.chance(1, 2):
+        second = "second.circom"
+        odd_name = rng.chance(1, 3)
+        if odd_name:
+            # a legal but unusual file name (it is only named on the command line, never included)
+            second = rng.choice(['se"cond.circom', "sec ond.circom", "sec#ond%41.circom", 'a"b"c.circom'])
+        files[second] = "pragma circom 2.0.0;\n" + gen.render(t2)
+        inputs.append(second)
+        if not odd_name and rng.chance(1, 2):
             # the second user file is also included by the first one, and the two are named in either order: a file that is
             # both included and named on the command line stays a user input (its findings are displayed once)
             main = main.replace("pragma circom 2.0.0 ;\n", "pragma circom 2.0.0 ;\ninclude \"second.circom\";\n", 1)
@@ -118,9 +125,15 @@ def parse_model(reply):
             "batches": [rl(b) for b in parts[3].split("|")], "displayed": rl(parts[4]), "sarif": rl(parts[5])}
 
 
-def spec_keep(r, level, allow):
-    """the filter clause of C03, straight from the property text"""
+def spec_keep(r, level, allow, inputs=None):
+    """the filter clause of C03, straight from the property text. A report without a label that is about one file (the version
+    pragma reports name it in their message) is located in that file: with `inputs` (the paths named on the command line) given, such
+    a report about an only-included file is not displayed."""
     located_only_in_included = bool(r["primary"]) and not r["user_input"]
+    if inputs is not None and not r["primary"]:
+        m = re.match(r"The file `(.*?)` (?:does not include a version pragma|requires version)", r["message"])
+        if m and os.path.realpath(m.group(1)) not in {os.path.realpath(i) for i in inputs}:
+            located_only_in_included = True
     return LEVELS[r["level"]] >= level and r["id"] not in allow and not located_only_in_included
 
 
